@@ -251,7 +251,7 @@ func TestVerif_C14_close(t *testing.T) {
 			}
 		}
 		if alg == "deflate" && readThenClose {
-			// DeflateReader.Close closes only the flate reader once a Read happened (fixes/C14-5)
+			// DeflateReader.Close closes only the flate reader once a Read happened (repaired in /repo by 1ae1001)
 			class = "deflate-close-leaves-body-open"
 		}
 		human := fmt.Sprintf("%s %s payload=%dB wire=%dB chunk=%d: %s -> Body.Close called %d times", alg, kind, len(p), len(w), src.Chunk, strings.Join(trace, " "), src.Closes)
